@@ -243,7 +243,14 @@ func mergeStringMaps(src, dest map[string]any) {
 			}
 			continue
 		}
-		// Otherwise, set the value directly
+		// Otherwise, set the value directly. Nested maps are copied so that
+		// a later merge into dest can't modify src.
+		if srcMap, ok := srcValue.(map[string]any); ok {
+			copied := make(map[string]any, len(srcMap))
+			mergeStringMaps(srcMap, copied)
+			dest[srcKey] = copied
+			continue
+		}
 		dest[srcKey] = srcValue
 	}
 }
